@@ -93,6 +93,21 @@ def main():
     shutil.copy(src / "patch.diff", dst / "patch.diff")
     shutil.copy(src / "demo.py", dst / "demo.py")
     meta = json.loads((src / "meta.json").read_text()) if (src / "meta.json").exists() else {}
+    old = {}
+    if (dst / "meta.json").exists():
+        try:
+            prev = json.loads((dst / "meta.json").read_text())
+            old = prev.get("verification", {})
+            for k in ("missed_at_first", "first_result"):
+                if k in prev:
+                    meta[k] = prev[k]
+        except Exception:
+            old = {}
+    if result.get("suite_passes") is None and old.get("suite_passes") is not None:
+        result["suite"], result["suite_passes"] = old.get("suite"), old.get("suite_passes")
+    if old and (old.get("caught") is False or old.get("caught_with_failing_input") is False) and "first_result" not in meta:
+        meta["missed_at_first"] = True
+        meta["first_result"] = {k: old.get(k) for k in ("check_exit", "caught", "caught_with_failing_input", "check_lines")}
     meta["verification"] = result
     (dst / "meta.json").write_text(json.dumps(meta, indent=1, ensure_ascii=False))
     return result
